@@ -22,7 +22,7 @@ func init() {
 		"obigrep: 1-12 (thorough up to 40) FASTA/FASTQ records with identifiers [ab1]{1,3}_<rank>, definitions of 0-3 words, lengths around two pivot lengths, " +
 		"count and string/int/float/bool/map annotations from small value sets, optionally a mate file; option values are read off the records " +
 		"(lengths/counts at value-1/value/value+1, patterns cut from a record's id/definition/sequence/annotation, expressions comparing with a record's values, " +
-		"id lists holding about half of the ids, clades on the path of a record's taxon in a generated dump). TestGrepEveryPair enumerates each of the 14 selection options alone, " +
+		"id lists holding about half of the ids, clades on the path of a record's taxon in a generated dump). TestGrepEveryPair enumerates each of the 15 selection options (the 14 exact ones and --approx-pattern with drawn --pattern-error / --allows-indels / --only-forward) alone, " +
 		"every pair and every repeatable option twice, each with and without -v; TestGrepSubsets draws 1-6 options with repetitions; TestGrepPaired draws the six --paired-mode values; " +
 		"--save-discarded, -o, --max-cpu {default,1,2,3,8}, --batch-size {default,1,2,3,5,10}, long/short option names are drawn. " +
 		"Oracle: a reference interpreter of the documented options (conjunction of the criteria, mode table for pairs, complement under -v): the selected records, in input order, " +
@@ -64,7 +64,7 @@ func TestGrepEveryPair(t *testing.T) {
 		}
 	}
 	if done > 0 {
-		evid.Exhaustive("obigrep: each of the 14 selection options alone, every pair of them, every repeatable option twice; each with and without -v")
+		evid.Exhaustive("obigrep: each of the 15 selection options (--approx-pattern with drawn modifiers included) alone, every pair of them, every repeatable option twice; each with and without -v")
 	}
 }
 
